@@ -32,6 +32,26 @@ static int has_window8(const octet* hay, size_t hn, const octet* nee, size_t nn)
 	return 0;
 }
 
+/* the code as it arrives: in a block of exactly its length */
+static err_t cmd_unwrap_exact(apdu_cmd_t* cmd, size_t* size, const octet* apdu, size_t n, void* st)
+{
+	octet* w = (octet*)sk_alloc(n ? n : 1);
+	err_t code;
+	memcpy(w, apdu, n);
+	code = btokSMCmdUnwrap(cmd, size, w, n, st);
+	sk_free(w);
+	return code;
+}
+static err_t resp_unwrap_exact(apdu_resp_t* resp, size_t* size, const octet* apdu, size_t n, void* st)
+{
+	octet* w = (octet*)sk_alloc(n ? n : 1);
+	err_t code;
+	memcpy(w, apdu, n);
+	code = btokSMRespUnwrap(resp, size, w, n, st);
+	sk_free(w);
+	return code;
+}
+
 static void alter(sk_rng* r, int kind, octet* apdu, size_t* n, size_t cap)
 {
 	size_t k;
@@ -180,9 +200,9 @@ void run_sm(uint64_t seed, const sk_mask* mask, sk_result* out)
 				btokSMStart(st_x, key);
 				for (k = 0; k <= ctr_c; ++k)
 					btokSMCtrInc(st_x);
-				xc = btokSMCmdUnwrap(0, &xs, apdu, n0, st_x);
+				xc = cmd_unwrap_exact(0, &xs, apdu, n0, st_x);
 				if (xc == ERR_OK && xs <= sizeof(big))
-					xc = btokSMCmdUnwrap((apdu_cmd_t*)big, &xs, apdu, n0, st_x);
+					xc = cmd_unwrap_exact((apdu_cmd_t*)big, &xs, apdu, n0, st_x);
 				apdu[pos] = save;
 				if (xc == ERR_OK)
 					sk_violate(out, "sm_altered_command_accepted", "sweep: octet %u of a %u-octet protected command (cdf=%u le=%u) was substituted and the command was accepted",
@@ -198,11 +218,11 @@ void run_sm(uint64_t seed, const sk_mask* mask, sk_result* out)
 			alter(&fr_rng, fc, apdu, &n, sizeof(apdu));
 		/* ---- card removes protection */
 		btokSMCtrInc(st_c), ++ctr_c;
-		code = btokSMCmdUnwrap(0, &sz, apdu, n, st_c);
+		code = cmd_unwrap_exact(0, &sz, apdu, n, st_c);
 		if (code == ERR_OK && sz <= sizeof(big))
 		{
 			cmd1 = (apdu_cmd_t*)sk_alloc(sz);
-			code = btokSMCmdUnwrap(cmd1, &sz, apdu, n, st_c);
+			code = cmd_unwrap_exact(cmd1, &sz, apdu, n, st_c);
 		}
 		else
 			cmd1 = 0;
@@ -279,11 +299,11 @@ void run_sm(uint64_t seed, const sk_mask* mask, sk_result* out)
 		if (fr != X_NONE)
 			alter(&fr_rng, fr, apdu, &n, sizeof(apdu));
 		btokSMCtrInc(st_t), ++ctr_t;
-		code = btokSMRespUnwrap(0, &sz, apdu, n, st_t);
+		code = resp_unwrap_exact(0, &sz, apdu, n, st_t);
 		if (code == ERR_OK && sz <= sizeof(big))
 		{
 			resp1 = (apdu_resp_t*)sk_alloc(sz);
-			code = btokSMRespUnwrap(resp1, &sz, apdu, n, st_t);
+			code = resp_unwrap_exact(resp1, &sz, apdu, n, st_t);
 		}
 		else
 			resp1 = 0;
@@ -332,7 +352,7 @@ void run_sm(uint64_t seed, const sk_mask* mask, sk_result* out)
 		if (sk_chance(&r, 1, 6) && ctr_t == ctr_c && (ctr_t & 1) == 0)
 		{
 			btokSMCtrInc(st_t), ++ctr_t; /* odd now */
-			code = btokSMRespUnwrap(resp1 ? resp1 : (apdu_resp_t*)big, &sz, apdu0, n0, st_t);
+			code = resp_unwrap_exact(resp1 ? resp1 : (apdu_resp_t*)big, &sz, apdu0, n0, st_t);
 			if (code != ERR_BAD_LOGIC)
 			{
 				sk_violate(out, "sm_wrong_parity_accepted", "btokSMRespUnwrap at an odd counter returned %u instead of ERR_BAD_LOGIC", (unsigned)code);
